@@ -767,7 +767,13 @@ func ToEntry(n Node) (e *Entry) {
 			}
 		case "action":
 			for _, r := range fv.Interface().([]*Action) {
-				e.add(r.Name, ToEntry(r))
+				action := ToEntry(r)
+				if action.RPC == nil {
+					// As for an rpc: an action without input and
+					// output statements still has both, implicitly.
+					action.RPC = &RPCEntry{}
+				}
+				e.add(r.Name, action)
 			}
 		case "augment":
 			for _, a := range fv.Interface().([]*Augment) {
